@@ -1,0 +1,57 @@
+//go:build verif
+
+package pokertable
+
+import (
+	"sync"
+
+	"github.com/weedbox/pokertable/open_game_manager"
+	"github.com/weedbox/pokertable/seat_manager"
+)
+
+// Verification instrumentation (build tag "verif"). Read-only accessors and
+// named hook points; nothing here is compiled into a normal build.
+
+var verifHooks = map[*tableEngine]func(point string){}
+var verifHooksMu sync.Mutex
+
+func (te *tableEngine) verifHook(point string) {
+	verifHooksMu.Lock()
+	fn := verifHooks[te]
+	verifHooksMu.Unlock()
+	if fn != nil {
+		fn(point)
+	}
+}
+
+// VerifSetHook installs fn to be called at every named hook point of te.
+// fn may block: a blocking hook parks the engine goroutine at that point.
+func VerifSetHook(e TableEngine, fn func(point string)) {
+	te := e.(*tableEngine)
+	verifHooksMu.Lock()
+	if fn == nil {
+		delete(verifHooks, te)
+	} else {
+		verifHooks[te] = fn
+	}
+	verifHooksMu.Unlock()
+}
+
+func VerifSeatManager(e TableEngine) seat_manager.SeatManager { return e.(*tableEngine).sm }
+
+func VerifOpenGameManager(e TableEngine) open_game_manager.OpenGameManager {
+	return e.(*tableEngine).ogm
+}
+
+func VerifIsReleased(e TableEngine) bool { return e.(*tableEngine).isReleased }
+
+// verifGameHook is called by the per-hand game wrapper (game.go).
+var verifGameHook func(g interface{}, point string)
+
+func VerifSetGameHook(fn func(g interface{}, point string)) { verifGameHook = fn }
+
+func (g *game) verifHook(point string) {
+	if fn := verifGameHook; fn != nil {
+		fn(g, point)
+	}
+}
